@@ -658,6 +658,7 @@ type AddDeviate struct {
 	mandatoryPtr   *bool
 	maxElementsPtr *int
 	minElementsPtr *int
+	unboundedPtr   *bool
 	musts          []*Must
 	units          string
 	unique         [][]string
@@ -674,8 +675,17 @@ type ReplaceDeviate struct {
 	mandatoryPtr   *bool
 	minElementsPtr *int
 	maxElementsPtr *int
+	unboundedPtr   *bool
 	extensions     []*Extension
 }
+
+// max-elements unbounded;
+func (y *AddDeviate) Unbounded() bool          { return y.unboundedPtr != nil && *y.unboundedPtr }
+func (y *AddDeviate) IsUnboundedSet() bool     { return y.unboundedPtr != nil }
+func (y *AddDeviate) setUnbounded(b bool)      { y.unboundedPtr = &b }
+func (y *ReplaceDeviate) Unbounded() bool      { return y.unboundedPtr != nil && *y.unboundedPtr }
+func (y *ReplaceDeviate) IsUnboundedSet() bool { return y.unboundedPtr != nil }
+func (y *ReplaceDeviate) setUnbounded(b bool)  { y.unboundedPtr = &b }
 
 type DeleteDeviate struct {
 	parent      *Deviation
